@@ -338,7 +338,11 @@ fn react(led: &Led, kn: &Knobs, server: usize, health: Health, via: Via, req: &[
             fault(led, scope.clone(), if via == Via::Dgram { "fault.d.other_q" } else { "fault.s.other_q" });
             let t = issue(led, None, "other_question", via, server);
             let other = format!("x{}.sim.", k.unwrap_or(9999));
-            let b = match sim::draw("peer.otherq_kind", 5) {
+            let b = match sim::draw("peer.otherq_kind", 6) {
+                // A bare header that reports no error: nothing in it says it
+                // belongs to this request (only an *error* is taken on the
+                // id alone).
+                5 => dns::mk_header_only(p.id, Rcode::NOERROR),
                 0 => dns::mk_reply_other_question(p.id, &other, t),
                 1 => dns::mk_reply_other_question_rc(p.id, &other, None, Rcode::REFUSED),
                 2 => dns::mk_reply_other_question_rc(p.id, &other, None, Rcode::SERVFAIL),
